@@ -111,3 +111,50 @@ func fmtEvents[E any](es []E) string {
 	}
 	return s
 }
+
+// TestVfC15GcVsUse: the collection of an idle bucket and a client coming back at that very moment. The collector looks
+// at a bucket (idle for more than a minute, refilled) and removes it; a request of the subnet that arrives in between
+// spends tokens from a bucket that is then thrown away, and the next request finds a fresh, full one - two bursts at
+// one instant. Hammered with real goroutines (the collector's own clock is real time, the idle period is laid into
+// the past through the time AllowN is given).
+func TestVfC15GcVsUse(t *testing.T) {
+	st := vfkit.Stats("TestVfC15GcVsUse", "per case 2000-6000 rounds on fresh subnets of one limiter (limit 1/s, burst 2-20): the subnet's bucket is created 2 minutes in the past (idle, refilled), then gc() and a request for the whole burst run at the same time (started together, 0-3 us apart), followed by a second request for the whole burst at the same instant; oracle: both cannot be admitted - two bursts at one instant exceed burst + rate x window; non-trivial = every case")
+	defer vfkit.Flush()
+	rapid.Check(t, func(t *rapid.T) {
+		burst := rapid.SampledFrom([]int{2, 5, 20}).Draw(t, "burst")
+		rounds := rapid.IntRange(2000, 6000).Draw(t, "rounds")
+		spin := rapid.IntRange(0, 300).Draw(t, "spin")
+		cl := NewClientLimiter(ClientLimiterOpts{Limit: 1, Burst: burst})
+		defer cl.Close()
+		both := 0
+		for r := 0; r < rounds; r++ {
+			addr := netip.AddrFrom4([4]byte{10, byte(r >> 16), byte(r >> 8), byte(r)})
+			// 256 distinct /24s, then the same ones again: delete what earlier rounds left, so that every round starts alike
+			cl.m.Delete(cl.mask(addr))
+			cl.AllowN(addr, time.Now().Add(-2*time.Minute), 0)
+			start := make(chan struct{})
+			done := make(chan bool, 1)
+			go func() {
+				<-start
+				for i := 0; i < spin; i++ {
+				}
+				done <- cl.AllowN(addr, time.Now(), burst)
+			}()
+			gcd := make(chan struct{})
+			go func() {
+				<-start
+				cl.gc()
+				close(gcd)
+			}()
+			close(start)
+			first := <-done
+			<-gcd
+			second := cl.AllowN(addr, time.Now(), burst)
+			if first && second {
+				both++
+				t.Fatalf("round %d: a subnet idle for two minutes came back while the collector ran: a request for the whole burst (%d) was admitted, and so was a second one at the same instant - the first spent the tokens of a bucket the collector was removing, the second found a fresh one (limit 1/s, burst %d)", r, burst, burst)
+			}
+		}
+		st.Case(vfkit.Fingerprint(burst, rounds, spin), true, nil, func() any { return map[string]any{"burst": burst, "rounds": rounds, "spin": spin} })
+	})
+}
